@@ -39,6 +39,7 @@ pub(crate) fn encpb(t: &[&str]) -> Option<String> {
         listen_addrs: spec::lb(la)?,
         observed_addr: spec::ob(oa)?,
         protocols: spec::lst(pr)?,
+        ..Default::default()
     };
     let bytes = m.encode_to_vec();
     let dump = pb(&bytes);
